@@ -163,9 +163,93 @@ def is_sym(W):
 
 # ------------------------------------------------------------------ running one case
 
-def invoke(bct, case, seed, ci0, hierarchy=False, t=6.0):
+class Rec2(Recorder):
+    """Recorder that also counts the permutations drawn so far (= number of the current sweep)"""
+
+    def __init__(self, seed):
+        super().__init__(seed)
+        self.nperm = 0
+
+    def permutation(self, x):
+        self.nperm += 1
+        return super().permutation(x)
+
+
+_MOVE_RE = re.compile(r'^\s*(ci|m|Mb)\[(u|i)\]\s*=\s*(mb|j)\s*\+\s*1')
+
+
+def _move_lines(f):
+    """line numbers of the statements `ci[u] = mb + 1` (the accepted move) in an optimiser -> (node var, target var)"""
+    import inspect
+    f = inspect.unwrap(f)
+    src, first = inspect.getsourcelines(f)
+    out = {}
+    for k, ln in enumerate(src):
+        m = _MOVE_RE.match(ln)
+        if m:
+            out[first + k] = (m.group(2), m.group(3))
+    return f.__code__, out
+
+
+def trace_moves(bct, case, hierarchy=False, t=10.0):
+    """Re-run the real routine under sys.settrace and list the moves it made as (sweep number, node, target slot).
+    No change to /repo is needed: the tracer reads the locals at the statement that relabels the node."""
+    code, lines = _move_lines(getattr(bct, case['routine']))
+    rec = Rec2(case['seed'])
+    moves = []
+
+    def local(frame, event, arg):
+        if event == 'line' and frame.f_lineno in lines:
+            uv, tv = lines[frame.f_lineno]
+            moves.append((rec.nperm, int(frame.f_locals[uv]), int(frame.f_locals[tv])))
+        return local
+
+    def tracer(frame, event, arg):
+        return local if frame.f_code is code else None
+
+    sys.settrace(tracer)
+    try:
+        st, out, _ = invoke(bct, case, case['seed'], case.get('ci0'), hierarchy=hierarchy, t=t, rec=rec)
+    finally:
+        sys.settrace(None)
+    return st, out, moves
+
+
+def trace_spectral(bct, case, t=10.0):
+    """Run modularity_und/_dir (kci=None) under sys.settrace and record, per `recur` call in call order, the decision the
+    eigen-solver + sign flipping produced: 'L' (no positive split) or the final +/- assignment over the module."""
+    dec = []
+
+    def make(idx):
+        def local(frame, event, arg):
+            if event == 'return':
+                loc = frame.f_locals
+                q, asg = loc.get('q'), loc.get('mod_asgn')
+                if q is not None and asg is not None and q > 0:
+                    dec[idx] = ''.join('+' if v == 1 else '-' for v in np.asarray(asg).tolist())
+                else:
+                    dec[idx] = 'L'
+            return local
+        return local
+
+    def tracer(frame, event, arg):
+        c = frame.f_code
+        if c.co_name == 'recur' and c.co_filename.endswith('modularity.py'):
+            dec.append(None)
+            return make(len(dec) - 1)
+        return None
+
+    sys.settrace(tracer)
+    try:
+        st, out, rec = invoke(bct, case, case['seed'], None, t=t)
+    finally:
+        sys.settrace(None)
+    return st, out, rec, dec
+
+
+def invoke(bct, case, seed, ci0, hierarchy=False, t=6.0, rec=None):
     r = case['routine']; A = np.array(case['W'], dtype=float); g = float(Fr(case['gamma']))
-    rec = Recorder(seed)
+    rec = rec if rec is not None else Rec2(seed)
     ci = None if ci0 is None else np.array(ci0, dtype=int)
     f = getattr(bct, r)
     if r == 'community_louvain':
@@ -228,7 +312,11 @@ def run_case(case):
         case['start_origin'] = '%s:%s:%d' % (sf['routine'], sf.get('opt'), sf['seed'])
         res['case'] = case
     ci0 = case.get('ci0')
-    st, out, rec = invoke(bct, case, case['seed'], ci0, hierarchy=hier, t=case.get('t', 6.0))
+    if r in ('modularity_und', 'modularity_dir') and ci0 is None and not case.get('malformed'):
+        st, out, rec, dec = trace_spectral(bct, case)
+        res['oracle'] = dec
+    else:
+        st, out, rec = invoke(bct, case, case['seed'], ci0, hierarchy=hier, t=case.get('t', 6.0))
     res['status'] = st
     res['draws'] = rec.flat()
     if st == 'exc':
@@ -286,6 +374,8 @@ def run_case(case):
                               cond_of(case, len(levels))))
         elif st2 == 'exc':
             F.append(('raises', {'exception': out2, 'plain': True}, cond_of(case)))
+        else:
+            res['extra']['plain_timeout'] = 1
     # ---- C07
     if r in OPTIMISERS and levels and Qs[-1] is not None:
         start = list(ci0) if ci0 is not None else list(range(1, n + 1))
@@ -668,8 +758,8 @@ def gen_cases(rs, tier, routines=None):
                 k = int(rs.randint(1, n + 1))
                 ci0 = encode_partition(rs, _rg_canon(rs.randint(0, k, size=n).tolist()))
                 add(r, A, opt, ci0, gamma=('1' if r == 'modularity_und_sign' else None))
-                if r != 'modularity_und_sign' and rs.rand() < .5:
-                    add(r, A, opt, None)
+                if r != 'modularity_und_sign':
+                    add(r, A, opt, None)      # kci=None: spectral path, decisions recorded for the model
     # (custom objective matrices are passed as nested lists: as an ndarray the routine raises ValueError under
     #  NumPy >= 1.25 - `B in ('negative_sym', ...)` on an array - which is outside C02/C07: they name the built-in objectives)
     # (e) malformed stream: asymmetric input to the _und routines (may spin: watchdog), outcome: no claim
@@ -742,13 +832,23 @@ def run_check(ck, preds):
         cases = gen_cases(ck.rs, ck.tier)
     results = pmap(run_case, cases)
     cases = [r.get('case', c) for c, r in zip(cases, results)]     # cross-routine cases now carry their resolved start
-    qlines, qidx, rlines, ridx = [], [], [], []
+    qlines, qidx, rlines, ridx, slines, sidx = [], [], [], [], [], []
+    pending = []      # violations of modularity_louvain_dir wait for the verdict of the as-coded (D6) model
+    ntimeouts = 0
     for n_, (c, r) in enumerate(zip(cases, results)):
         rt = c['routine'] + (':' + c['opt'] if c.get('opt') else '')
         ck.count('routine:' + rt); ck.count('status:' + r['status']); ck.count('n=%d' % len(c['W']))
         if c.get('malformed'):
             ck.count('malformed:' + c['malformed'] + ':' + r['status'])
             continue
+        # every watchdog hit on an in-domain input is counted (main call, plain call, feedback call, start of a cross case)
+        nt = int(r['status'] in ('timeout', 'start-timeout')) + r['extra'].get('plain_timeout', 0) + r['extra'].get('feedback_timeout', 0)
+        if nt:
+            ntimeouts += nt
+            ck.count('timeouts_in_domain', nt)
+            for k in ('plain_timeout', 'feedback_timeout'):
+                if r['extra'].get(k):
+                    ck.count(k)
         start = c['ci0'] if c.get('ci0') is not None else list(range(1, len(c['W']) + 1))
         moved = r['status'] == 'ok' and r['levels'] and (
             (c['routine'] in GIVEN and len(set(r['levels'][-1][0])) >= 2) or
@@ -759,7 +859,10 @@ def run_check(ck, preds):
         for pred, info, cond in r['fails']:
             if pred in preds:
                 d = {'case': c}; d.update(info)
-                ck.violation(c['routine'], pred, d, cond)
+                if c['routine'] == 'modularity_louvain_dir':
+                    pending.append((n_, pred, d, cond))
+                else:
+                    ck.violation(c['routine'], pred, d, cond)
         if r['status'] != 'ok' or not r['levels'] and c['routine'] not in HIER:
             continue
         failed = {p for p, _, _ in r['fails']}
@@ -769,14 +872,21 @@ def run_check(ck, preds):
                 qlines.append(q_line(c, c['ci0'] if (c['routine'] in GIVEN and c.get('ci0') is not None) else ci)); qidx.append((n_, h))
         if c.get('start_origin'):
             ck.count('cross_refinement_cases'); ck.count('cross_from:' + c['start_origin'].rsplit(':', 1)[0])
+        if r.get('oracle') is not None and all(t is not None for t in r['oracle']):
+            # spectral path: the model bisects with the recorded eigen-solver decisions
+            slines.append('spectral kind=%s n=%d W=%s gamma=%s oracle=%s' % (kind_of(c), len(c['W']), rat_list(c['W']), c['gamma'], ','.join(r['oracle']) or '-'))
+            sidx.append(n_)
         if c['routine'] in REPLAY_OPS and _dyadic(c['gamma']):
             rlines.append(replay_line(c, r)); ridx.append(n_)
         elif c['routine'] in REPLAY_OPS:
             ck.count('replay_skipped_nondyadic_gamma')   # float gamma is not the rational the model would use: oracle + q-line only
+    if ntimeouts > max(3, 0.005 * len(cases)):
+        ck.breaks.append({'kind': 'timeouts', 'what': '%d watchdog hits on in-domain inputs (bound: max(3, 0.5%% of %d cases))' % (ntimeouts, len(cases))})
+    d6_agrees = {}
     if ok:
         try:
-            outs = run_driver_par('Modularity', qlines + rlines)
-            qo, ro = outs[:len(qlines)], outs[len(qlines):]
+            outs = run_driver_par('Modularity', qlines + rlines + slines)
+            qo, ro, so = outs[:len(qlines)], outs[len(qlines):len(qlines) + len(rlines)], outs[len(qlines) + len(rlines):]
             nd = 0
             for (n_, h), o in zip(qidx, qo):
                 c, r = cases[n_], results[n_]
@@ -802,52 +912,93 @@ def run_check(ck, preds):
                     if nd <= 5:
                         ck.corr_break('Modularity model q (%s) vs bct.%s' % (bad, c['routine']), {'case': c, 'level': h, 'model': o[:300], 'impl': [ci, q]})
             ck.count('corr_q_cases', len(qo)); ck.count('corr_q_disagreements', nd)
+            # spectral path
+            ns = 0
+            for n_, o in zip(sidx, so):
+                c, r = cases[n_], results[n_]
+                d = kv(o)
+                (ci, q), = r['levels']
+                if 'ci' not in d or [int(x) for x in d['ci'].split(',')] != [int(x) for x in ci] or not close(q, Fr(d['q'])) or d.get('left') != '0':
+                    ns += 1
+                    if ns <= 3:
+                        ck.corr_break('Modularity spectral path vs bct.' + c['routine'], {'case': c, 'oracle': r['oracle'], 'model': o[:300], 'impl': [ci, q]})
+            ck.count('corr_spectral_cases', len(so)); ck.count('corr_spectral_disagreements', ns)
+
+            def verdict_of(c, r, o):
+                ml, d = parse_levels(o)
+                if ml is None:
+                    return 'error:' + str(d.get('error')), d
+                if c['routine'] in HIER:
+                    v = _cmp_levels(r['levels'], ml[1:])
+                    if v == 'same' and r.get('plain') is not None:
+                        v = _cmp_levels([r['plain']], [ml[-1]])
+                else:
+                    v = _cmp_levels(r['levels'], [ml[-1]])
+                if v == 'same' and d.get('left') != '0':
+                    v = 'draws-left'
+                return v, d
+
             nr = 0; agree = 0
-            tie_ok, tie_div, tie_ex = {}, {}, {}
+            tie_ok, diverged = {}, []
             for n_, o in zip(ridx, ro):
                 c, r = cases[n_], results[n_]
-                ml, d = parse_levels(o)
-                if ml is None and d.get('error') in ('out-of-draws', 'bad-draw') and int(d.get('ties', '0')) > 0:
-                    ck.count('replay_tie_divergence_other_q')   # an exact tie broken differently made the model sweep longer than bct
-                    tie_div[c['routine']] = tie_div.get(c['routine'], 0) + 1
-                    tie_ex.setdefault(c['routine'], {'case': c, 'draws': r['draws'], 'model': o[:300], 'impl': r['levels']})
-                    continue
-                if ml is None:
-                    nr += 1
-                    if nr <= 5:
-                        ck.corr_break('Modularity replay vs bct.' + c['routine'], {'case': c, 'model': o[:300], 'impl': r['levels']})
-                    continue
-                if c['routine'] in HIER:
-                    verdict = _cmp_levels(r['levels'], ml[1:])
-                    if verdict == 'same' and r.get('plain') is not None:
-                        verdict = _cmp_levels([r['plain']], [ml[-1]])
-                else:
-                    verdict = _cmp_levels(r['levels'], [ml[-1]])
-                if verdict == 'same' and d.get('left') == '0':
+                v, d = verdict_of(c, r, o)
+                if v == 'same':
                     agree += 1
+                    if c['routine'] == 'modularity_louvain_dir':
+                        d6_agrees[n_] = True
                     if int(d.get('ties', '0')) > 0:
                         ck.count('replay_agree_with_exact_ties')
                         tie_ok[c['routine']] = tie_ok.get(c['routine'], 0) + 1
+                else:
+                    diverged.append((n_, v, o))
+            # A replay that diverges is accepted only if the model, *following bct's own moves* (recorded with sys.settrace
+            # from a second run of the real routine), certifies every one of them as admissible in exact arithmetic: each moved
+            # node went to a maximiser of the exact gain above the threshold, each unmoved node had no gain above it.  Then
+            # the only difference to the first-maximum replay is the choice among exact ties (`cert` of them); anything else
+            # is a correspondence break.
+            bct = import_bct()
+            glines, gidx = [], []
+            for n_, v, o in diverged[:80]:
+                c, r = cases[n_], results[n_]
+                st, out, moves = trace_moves(bct, c, hierarchy=c['routine'] in HIER)
+                if st != 'ok':
                     continue
-                if int(d.get('ties', '0')) > 0:
-                    # an exact tie was broken somewhere: floats may legitimately pick another maximiser; compare by value
-                    same_q = r['levels'] and ml and close(r['levels'][-1][1], ml[-1][1])
-                    ck.count('replay_tie_divergence_' + ('same_q' if same_q else 'other_q'))
+                glines.append(replay_line(c, r) + ' guide=' + (','.join('%d:%d:%d' % m for m in moves) or '-')); gidx.append(n_)
+            gouts = dict(zip(gidx, run_driver('Modularity', glines))) if glines else {}
+            tie_div = {}
+            for n_, v, o in diverged:
+                c, r = cases[n_], results[n_]
+                go = gouts.get(n_)
+                gv, gd = verdict_of(c, r, go) if go is not None else ('not-traced', {})
+                if gv == 'same' and int(gd.get('cert', '0')) > 0:
+                    ck.count('replay_tie_certified'); ck.count('replay_tie_certified_steps', int(gd['cert']))
                     tie_div[c['routine']] = tie_div.get(c['routine'], 0) + 1
-                    tie_ex.setdefault(c['routine'], {'case': c, 'draws': r['draws'], 'model': o[:300], 'impl': r['levels']})
+                    agree += 1
+                    if c['routine'] == 'modularity_louvain_dir':
+                        d6_agrees[n_] = True
                     continue
                 nr += 1
+                ck.count('replay_divergence_not_certified')
                 if nr <= 5:
-                    ck.corr_break('Modularity replay (%s) vs bct.%s' % (verdict, c['routine']), {'case': c, 'draws': r['draws'], 'model': o[:400], 'impl': r['levels'], 'plain': r.get('plain')})
-            # a float tie may legitimately be broken differently once in a while (different expressions, same exact value);
-            # a *systematic* disagreement on tied cases means the tie-breaking rule itself (first maximum) no longer matches
+                    ck.corr_break('Modularity replay (%s; following bct\'s moves: %s) vs bct.%s' % (v, gv, c['routine']),
+                                  {'case': c, 'draws': r['draws'], 'model': o[:400], 'model_following_bct': (go or '')[:400], 'impl': r['levels'], 'plain': r.get('plain')})
+            # certified ties are legitimate one by one, but a *systematic* disagreement on tied runs means that the tie-breaking
+            # rule (first maximum) itself no longer matches
             for rt, dv in sorted(tie_div.items()):
                 tot = dv + tie_ok.get(rt, 0)
                 if dv >= 6 and dv > 0.15 * tot:
                     nr += 1
-                    ck.corr_break('Modularity replay: tie-breaking of bct.%s disagrees with first-maximum in %d of %d runs with exact ties' % (rt, dv, tot), tie_ex[rt])
+                    ck.corr_break('Modularity replay: bct.%s breaks exact ties differently from first-maximum in %d of %d tied runs' % (rt, dv, tot), {})
             ck.cov['traces_validated_against_impl'] = agree
             ck.count('corr_replay_cases', len(ro)); ck.count('corr_replay_disagreements', nr)
         except DriverError as e:
             ck.corr_break('Modularity driver', str(e))
+    # D6 is accepted as a known finding only where the model of the code *as written* reproduces bct's output exactly:
+    # any other misbehaviour of modularity_louvain_dir does not carry `d6_model_agrees` and stays a VIOLATION
+    for n_, pred, d, cond in pending:
+        cond = dict(cond)
+        if d6_agrees.get(n_):
+            cond['d6_model_agrees'] = True
+        ck.violation('modularity_louvain_dir', pred, d, cond)
     ck.finish()
